@@ -204,13 +204,15 @@ class Pretty:
     def __rich_measure__(self, console: "Console", max_width: int) -> "Measurement":
         pretty_str = pretty_repr(
             self._object,
-            max_width=max_width,
+            max_width=max_width - self.margin,
             indent_size=self.indent_size,
             max_length=self.max_length,
             max_string=self.max_string,
             expand_all=self.expand_all,
         )
         text_width = max(cell_len(line) for line in pretty_str.splitlines())
+        # __rich_console__ renders at options.max_width - margin: the width needed to render like this
+        text_width += self.margin
         return Measurement(text_width, text_width)
 
 
